@@ -10,5 +10,6 @@ CONSTANTS
   Modes <- MBoth
   MaxOps = 5
 VIEW view
+INVARIANTS SenderIsSigner MutationChangesSenderOrFails MalformedRejected CacheNeverCrossesChainId PoolCacheKeyedByFullHash QiOnlyOwners
 ACTION_CONSTRAINT EmitHist
 CHECK_DEADLOCK FALSE
